@@ -370,6 +370,9 @@ class SimSocket:
             if not self.rst_reported:
                 self.rst_reported = True
                 net.on_write_fail(self, 0, "ECONNRESET", data)
+                if net.abort_errno:
+                    net.stats["write_fail_econnaborted"] = net.stats.get("write_fail_econnaborted", 0) + 1
+                    raise ConnectionAbortedError(errno.ECONNABORTED, "Software caused connection abort")
                 raise ConnectionResetError(errno.ECONNRESET, "Connection reset by peer")
             net.on_write_fail(self, 0, "EPIPE", data)
             raise BrokenPipeError(errno.EPIPE, "Broken pipe")
@@ -405,6 +408,9 @@ class SimSocket:
                 if kind == "rst":
                     self.rst_reported = True
                     net.on_write_fail(self, k, "ECONNRESET", data)
+                    if net.abort_errno:
+                        net.stats["write_fail_econnaborted"] = net.stats.get("write_fail_econnaborted", 0) + 1
+                        raise ConnectionAbortedError(errno.ECONNABORTED, "Software caused connection abort")
                     raise ConnectionResetError(errno.ECONNRESET, "Connection reset by peer")
                 self.rst_reported = True
                 net.on_write_fail(self, k, "EPIPE", data)
@@ -562,6 +568,10 @@ class SimNet:
             "peer_write_stall": 0, "peer_write_stall_expired": 0,
         }
         self.round_sigs = set()
+        # a reset connection reports ECONNABORTED instead of ECONNRESET on the write that discovers it (the usual
+        # write-side error on Windows, rare but legal elsewhere; also a ConnectionError).  Off unless a harness
+        # switches it on for a run.
+        self.abort_errno = False
         self.probe_rounds = set()             # rounds in which the manager refreshed its writable snapshot
         self.probe_seq = {}                   # round -> event seq of that refresh
         self.logging_on = True
